@@ -2,27 +2,45 @@
 // re-run: ./check C17 --replay /verif/replays/C17-c17_k1_lazy.rs
 /// Test generated for harness `layout::verif_kani::c17_k1_lazy` 
 ///
-/// Check for `assertion`: "index out of bounds: the length is less than or equal to the given index"
+/// Check for `assertion`: "assertion failed: ra.is_some() == expect_fire"
 
 #[test]
-fn kani_concrete_playback_c17_k1_lazy_2659555263039720995() {
+fn kani_concrete_playback_c17_k1_lazy_5700846253919181238() {
     let concrete_vals: std::vec::Vec<std::vec::Vec<u8>> = vec![
-        // 0ul
-        vec![0, 0, 0, 0, 0, 0, 0, 0],
-        // 65535
-        vec![255, 255],
-        // 5
-        vec![5, 0],
+        // 3ul
+        vec![3, 0, 0, 0, 0, 0, 0, 0],
         // 1
         vec![1, 0],
+        // 1
+        vec![1, 0],
+        // 2
+        vec![2, 0],
         // 65535
         vec![255, 255],
         // 65535
         vec![255, 255],
+        // 2
+        vec![2],
+        // 3ul
+        vec![3, 0, 0, 0, 0, 0, 0, 0],
+        // 0
+        vec![0, 0],
         // 0
         vec![0],
-        // 0ul
-        vec![0, 0, 0, 0, 0, 0, 0, 0],
+        // 256
+        vec![0, 1],
+        // 0
+        vec![0, 0],
+        // 0
+        vec![0],
+        // 258
+        vec![2, 1],
+        // 1
+        vec![1, 0],
+        // 0
+        vec![0],
+        // 32768
+        vec![0, 128],
     ];
     kani::concrete_playback_run(concrete_vals, c17_k1_lazy);
 }
